@@ -50,7 +50,9 @@ Verdicts(r) ==
                 ELSE {V("unstable", IF o.str0 # o.str1 THEN "statement changed" ELSE IF o.c4 # cols THEN "fresh parse" ELSE "repeated call")}
       \* history: the field list edited in place after the calls (every reference renamed) and asked again (c5) gives
       \* what the edited statement gives when parsed afresh from its own text (c6): the result depends on the statement alone
-      edited == IF Has(o, "c5") /\ Has(o, "c6") /\ o.c5 # o.c6 THEN {V("unstable", "after an in-place edit")} ELSE {}
+      edited == (IF Has(o, "c5") /\ Has(o, "c6") /\ o.c5 # o.c6 THEN {V("unstable", "after an in-place edit")} ELSE {})
+                \* an answer once given is the caller's: it does not change when the statement, or a clone, is asked again
+                \cup (IF Has(o, "c1_later") /\ o.c1_later # o.c1 THEN {V("unstable", "an earlier answer changed")} ELSE {})
       all == complete \cup alias \cup suffix \cup distinct \cup stable \cup edited
   IN IF all # {} THEN all
      ELSE IF cols = ColumnNamesImpl(r.fields, r.into, r.omit, r.eta) THEN {} ELSE {V("drift:names", "")}
